@@ -26,14 +26,16 @@ class EnsureConnection(Contract):
 
     def nothing_when_no_issue(self, g, old):
         return implies(not ci(old), ghost_same_log(g, old.g) and not self._comm_issue)
+    def monotone(g, old): return g.nx >= old.g.nx and g.conn >= old.g.conn and g.disc >= old.g.disc
     def repaired(self, g, old):
         """after a link failure: reconnect and complete bring-up before returning"""
         return implies(ci(old), not self._comm_issue and g.conn >= old.g.conn + 1 and g.nx >= old.g.nx + 4
                        and prefix_of(old.g.log, g.log)
                        and g.log[len(old.g.log)] == apdu_of(0x06, b"") and g.log[len(old.g.log) + 1] == apdu_of(0x43, b""))
-    ensures = [nothing_when_no_issue, repaired]
+    ensures = [nothing_when_no_issue, repaired, monotone]
 
-    def still_pending(self, old): return ci(old) and self._comm_issue
+    def still_pending(self, old, g):
+        return ci(old) and self._comm_issue and (g.conn > old.g.conn or g.disc > old.g.disc) and g.nx >= old.g.nx
     raises = {
         ERR_COMM: Exc(args=[STR_], post=[still_pending]),
         PINT: Exc(post=[still_pending]),
@@ -47,13 +49,16 @@ class EnsureConnection(Contract):
 def handler_clauses(command, device_error=-905):
     def documented_code(result): return in_docset(command, result[0])
     def timeout_is_device_error(result, self, g, old):
-        return implies(not ci(old) and classify(g) == K_TIMEOUT, result[0] == device_error and not self._comm_issue)
+        return implies(not ci(old) and g.nx > old.g.nx and classify(g) == K_TIMEOUT,
+                       result[0] == device_error and not self._comm_issue)
     def link_error_is_device_error_and_flagged(result, self, g, old):
-        return implies(not ci(old) and classify(g) == K_COMM, result[0] == device_error and self._comm_issue)
+        return implies(not ci(old) and g.nx > old.g.nx and classify(g) == K_COMM,
+                       result[0] == device_error and self._comm_issue)
     def failed_repair_is_device_error(result, self, g, old):
         # (a device *error status* answered during the repeated bring-up is not a failure to re-establish
         # the connection; what the handler then answers is not constrained by C11 - see DESIGN observations)
-        return implies(ci(old) and self._comm_issue and classify(g) != K_ERR, result[0] == device_error)
+        return implies(ci(old) and self._comm_issue and (g.conn > old.g.conn or g.disc > old.g.disc)
+                       and classify(g) != K_ERR, result[0] == device_error)
     return [documented_code, timeout_is_device_error, link_error_is_device_error_and_flagged,
             failed_repair_is_device_error]
 
